@@ -105,3 +105,74 @@ h!(slice_shrink_down4_set_noshrink, shrink_slice_body::<S<4, false, true, true, 
 h!(slice_shrink_typed_vs_dyn_up1, shrink_slice_typed_vs_dyn::<S<1, true>, 7>());
 h!(slice_shrink_typed_vs_dyn_nodealloc_up1, shrink_slice_typed_vs_dyn::<S<1, true, true, false, true>, 7>());
 h!(slice_shrink_typed_vs_dyn_nodealloc_down4, shrink_slice_typed_vs_dyn::<S<4, false, true, false, true>, 7>());
+
+
+// ------------------------------------------------------------------------------------------------
+// C13 through the TYPED deallocation entry point: BumpAllocatorTyped::dealloc(BumpBox) on the handle reclaims the
+// newest block; through WithoutDealloc (in any nesting with WithoutShrink, by value and by reference) it never changes
+// the allocated byte count (fourth-round seeded change: an explicit forward of `dealloc` to the inner allocator).
+// ------------------------------------------------------------------------------------------------
+fn typed_dealloc_body<const UP: bool, const MA: usize>()
+where
+    bump_scope::settings::MinimumAlignment<MA>: bump_scope::settings::SupportedMinimumAlignment,
+{
+    use bump_scope::{BumpBox, WithoutDealloc, WithoutShrink};
+    set_budget(1);
+    let Ok(bump) = Bump::<VA, S<MA, UP>>::try_new() else { return };
+    let bump = core::mem::ManuallyDrop::new(bump);
+    set_budget(0);
+    let w = Win::of(bump.stats().current_chunk().unwrap());
+    let lf = any_layout(4, 2);
+    let Ok(f) = bump.allocate(lf) else { return };
+    let f = f.cast::<u8>();
+    let (vf, jf): (u8, usize) = (kani::any(), kani::any());
+    kani::assume(lf.size() > 0 && jf < lf.size());
+    unsafe { w.write(addr(f) + jf, vf) };
+    let Ok(p) = bump.try_allocate_sized::<[u8; 4]>() else { return };
+    unsafe { p.as_ptr().write([7u8; 4]) };
+    let boxed: BumpBox<'_, [u8; 4]> = unsafe { BumpBox::from_raw(p) };
+    let before = bump.stats().allocated();
+    let pos_before = addr(bump.stats().current_chunk().unwrap().bump_position());
+    let entry: u8 = kani::any();
+    kani::assume(entry < 7);
+    let b: &Bump<VA, S<MA, UP>> = &*bump;
+    match entry {
+        0 => b.dealloc(boxed),
+        1 => WithoutShrink(b).dealloc(boxed),
+        2 => WithoutDealloc(b).dealloc(boxed),
+        3 => (&WithoutDealloc(b)).dealloc(boxed),
+        4 => WithoutShrink(WithoutDealloc(b)).dealloc(boxed),
+        5 => WithoutDealloc(WithoutShrink(b)).dealloc(boxed),
+        _ => unsafe { WithoutDealloc(b).deallocate(p.cast(), core::alloc::Layout::new::<[u8; 4]>()) },
+    }
+    let after = bump.stats().allocated();
+    if entry >= 2 {
+        check!(after == before, "C13: a deallocation through WithoutDealloc changed the allocated byte count");
+        check!(addr(bump.stats().current_chunk().unwrap().bump_position()) == pos_before, "C13: a deallocation through WithoutDealloc moved the bump position");
+    } else {
+        check!(after <= before, "C13: deallocating increased the allocated byte count");
+        if 4 % MA == 0 {
+            // size a multiple of the minimum alignment: the newest block is reclaimed and its address reused
+            check!(after + 4 == before, "C13: deallocating the newest block (size a multiple of MIN_ALIGN) through the typed entry point did not reclaim it");
+            let Ok(q) = bump.try_allocate_sized::<[u8; 4]>() else { return };
+            check!(addr(q.cast()) == addr(p.cast()), "C13: the address of the reclaimed newest block was not reused for the same layout");
+        }
+    }
+    kani::cover!(entry == 0 && after < before, "reclaimed through the handle");
+    kani::cover!(entry == 4, "nested wrappers");
+    check!(unsafe { w.read(addr(f) + jf) } == vf, "C02/C13: an earlier block changed");
+    kani::cover!(true, "END: harness ran to completion");
+}
+
+macro_rules! typed_dealloc_harness {
+    ($name:ident, $up:literal, $ma:literal) => {
+        #[kani::proof]
+        #[kani::unwind(6)]
+        #[kani::stub(std::alloc::handle_alloc_error, crate::stubs::hae_stub)]
+        fn $name() {
+            typed_dealloc_body::<$up, $ma>();
+        }
+    };
+}
+typed_dealloc_harness!(typed_dealloc_wrappers_up1, true, 1);
+typed_dealloc_harness!(typed_dealloc_wrappers_down4, false, 4);
